@@ -101,6 +101,13 @@ class WorldSession:
             self._stack.enter_context(W.real_numba(self.spec.get("threads"), self.spec.get("chunksize")))
         elif self.world == "numpy":
             self._np = self._stack.enter_context(_NumpyKnob(self.spec.get("chunk")))
+        if self.world in ("real-numba", "numpy"):
+            # a context also in the non-simulated worlds: it drives the simulated Python thread pool (dsim.simexec)
+            self.ctx = W.make_ctx(self.spec)
+            self.ctxs.append(self.ctx)
+            self._old_ctx = parfor.current()
+            parfor.set_context(self.ctx)
+            self._stack.callback(parfor.set_context, self._old_ctx)
         return self
 
     def __exit__(self, *exc):
@@ -125,6 +132,10 @@ class WorldSession:
             numba.set_parallel_chunksize(int(self.spec.get("chunksize") or 0))
         elif self.world == "numpy":
             self._np.set(self.spec.get("chunk"))
+        if self.world in ("real-numba", "numpy"):
+            self.ctx = W.make_ctx(self.spec)
+            self.ctxs.append(self.ctx)
+            parfor.set_context(self.ctx)
 
     def serial(self):
         """Context manager: temporarily the serial / default schedule (baselines, fresh-analyzer references)."""
@@ -145,11 +156,11 @@ class _Serial:
     def __enter__(self):
         s = self.s
         self.saved = dict(s.spec)
+        self.old_ctx = parfor.current()
+        ctx = parfor.SimContext(random.Random(0), serial=True, poison=s.spec.get("poison", True))
+        parfor.set_context(ctx)
+        self.ctx = ctx
         if s.world in ("sim-numba", "sim-cuda"):
-            self.old_ctx = s.ctx
-            ctx = parfor.SimContext(random.Random(0), serial=True, poison=s.spec.get("poison", True))
-            parfor.set_context(ctx)
-            self.ctx = ctx
             if s.world == "sim-cuda":
                 from speckit import core_cuda
 
@@ -162,8 +173,8 @@ class _Serial:
 
     def __exit__(self, *exc):
         s = self.s
+        parfor.set_context(self.old_ctx)
         if s.world in ("sim-numba", "sim-cuda"):
-            parfor.set_context(self.old_ctx)
             if s.world == "sim-cuda":
                 from speckit import core_cuda
 
